@@ -51,10 +51,10 @@ def _sym_psd(rec, A, name, sig, pd=False):
 def continuum_cases(draw):
     kind = draw(st.sampled_from(["2d", "2d", "3d", "m2d", "m3d"]))
     if kind == "2d":
-        r = draw(gm.recipes2d(perm_ok=True))
+        r = draw(gm.recipes2d(perm_ok=True, bend_ok=True))
         law = draw(gmod.elastic_specs(2))
     elif kind == "3d":
-        r = draw(gm.recipes3d(perm_ok=True, taper_ok=True))
+        r = draw(gm.recipes3d(perm_ok=True, taper_ok=True, bend_ok=True))
         law = draw(gmod.elastic_specs(3))
     else:  # deliberately mixed meshes (Mesh.Merge of two blocks of different element types)
         d = 2 if kind == "m2d" else 3
@@ -161,7 +161,7 @@ def check_elastic(case, rec):
 @st.composite
 def thermal_cases(draw):
     kind = draw(st.sampled_from(["1d", "2d", "2d", "3d"]))
-    r = draw(gm.recipes1d() if kind == "1d" else gm.recipes2d() if kind == "2d" else gm.recipes3d(taper_ok=True))
+    r = draw(gm.recipes1d() if kind == "1d" else gm.recipes2d(bend_ok=True) if kind == "2d" else gm.recipes3d(taper_ok=True, bend_ok=True))
     return dict(recipe=r, k=draw(st.integers(1, 20)) / 4.0, c=draw(st.integers(1, 12)) / 4.0,
                 rho=draw(st.integers(1, 12)) / 4.0, thickness=draw(st.sampled_from([1.0, 0.5, 2.0])))
 
